@@ -82,7 +82,7 @@ def MATCH(
             )
 
     for i, val in enumerate(lookup_array):
-        if val == lookup_value:
+        if match_type != 1 and val == lookup_value:
             return i + 1
         if match_type == 1 and val > lookup_value:
             return i or xlerrors.NaExcelError(
